@@ -15,10 +15,13 @@ IRT = {'m1': 'id1', 'm2': 'id2'}
 _TEXT = {}
 _SEQ = [0]
 
-CAUSE = {'C02': 'edited', 'C03': 'key', 'C04': 'clock'}
+CAUSE = {'C02': 'edited', 'C03': 'key', 'C04': 'clock', 'C10': None}
+# the request side (C10): the same specification with the IdP as receiver and the SP's keys
+REQKEY = {'kIdp1': 'kSp', 'kIdp1b': 'kA', 'kAttacker': 'kAttacker'}
 CONTROL = {'C02': ('SPHistory_C02_memo.cfg', 'remembering verified signatures by identifier'),
            'C03': ('SPHistory_C03_memo.cfg', 'remembering the issuer\'s certificate'),
-           'C04': ('SPHistory_C04_memo.cfg', 'remembering that a time stamp was judged valid')}
+           'C04': ('SPHistory_C04_memo.cfg', 'remembering that a time stamp was judged valid'),
+           'C10': ('SPHistory_C10_memo.cfg', 'remembering verified signatures by identifier')}
 
 
 def message(level, m):
@@ -45,8 +48,68 @@ def message(level, m):
     return doc
 
 
+def request_text(m):
+    key = json.dumps(['request', m], sort_keys=True)
+    if key in _TEXT:
+        return _TEXT[key]
+    import c10
+    rid = 'req-' + m['id']
+    doc = c10.request_xml('authn', rid, c10.IDP_SSO['post'], env.ts(env.BASE_NOW - 5), sb.signature_template(rid, 'sha256'))
+    doc = sb.sign(doc, sb.NS_SAMLP, 'AuthnRequest', rid, REQKEY[m['key']])
+    if m['edited']:
+        doc = doc.replace('genuine', 'edited!', 1)
+    _TEXT[key] = doc
+    return doc
+
+
+def replay_requests(case):
+    """the IdP as the long-lived receiver of signed AuthnRequests (HTTP-POST)"""
+    import c10
+    _SEQ[0] += 1
+    path = os.path.join(sb.tmpdir(), 'sp-%d-%d.xml' % (os.getpid(), _SEQ[0]))
+
+    def publish(keyname):
+        with open(path, 'w') as f:
+            f.write(env.sp_metadata(keys=((keyname, 'signing'), ('kSpEnc1', 'encryption'))))
+    publish('kSp')
+    conf = env.idp_config(endpoints={'single_sign_on_service': [(c10.IDP_SSO['redirect'], env.BINDING_REDIRECT), (c10.IDP_SSO['post'], env.BINDING_POST)]},
+                          want_authn_requests_signed=True)
+    conf['metadata'] = {'local': [path]}
+    idp = env.make_idp(conf)
+    steps = []
+    try:
+        for e in case['hist']:
+            if e['op'] == 'tick':
+                spc.CLOCK.now = env.BASE_NOW + 2 * 86400 + 700      # IssueInstant is more than a day old
+                steps.append({'op': 'tick'})
+            elif e['op'] == 'roll':
+                publish('kA')
+                idp.metadata.load('local', path)
+                steps.append({'op': 'roll'})
+            else:
+                doc = request_text(e['msg'])
+                st = {'op': 'deliver', 'verdict': 'reject', 'exc': None, 'doc': doc}
+                try:
+                    res = idp.parse_authn_request(sb.b64(doc), env.BINDING_POST)
+                    if res is not None and getattr(res, 'message', None) is not None:
+                        st['verdict'] = 'accept'
+                        st['name_id'] = 'edited' if 'edited!' in str(res.message) else 'genuine'
+                except Exception as exc:
+                    st['exc'] = type(exc).__name__
+                steps.append(st)
+    finally:
+        spc.CLOCK.now = env.BASE_NOW
+        try:
+            os.unlink(path)
+        except OSError:
+            pass
+    return steps
+
+
 def replay(case):
     level = case['level']
+    if level == 'request':
+        return replay_requests(case)
     _SEQ[0] += 1
     path = os.path.join(sb.tmpdir(), 'idp1-%d-%d.xml' % (os.getpid(), _SEQ[0]))
 
@@ -107,7 +170,7 @@ def describe(hist, upto):
 def run(chk, pid):
     """TLC on the property's slice of SPHistory (thorough: the full product), vacuity control, replay"""
     thorough = chk.tier == 'thorough'
-    cfgs = ['SPHistory_%s.cfg' % pid] + (['SPHistory_full.cfg', 'SPHistory_deep.cfg'] if thorough else [])
+    cfgs = ['SPHistory_%s.cfg' % pid] + ((['SPHistory_C10_full.cfg'] if pid == 'C10' else ['SPHistory_full.cfg', 'SPHistory_deep.cfg']) if thorough else [])
     behs = []
     for cfg in cfgs:
         res = tlc.run('SPHistory.tla', cfg, timeout=900)
@@ -140,11 +203,11 @@ def run(chk, pid):
                       'document': s['doc']}
             key = {'history': 'history', 'level': case['level'], 'msg': json.dumps(e['msg'], sort_keys=True),
                    'before': describe(case['hist'], k - 1) if k else ''}
-            if e['mustReject'] and s['verdict'] == 'accept' and (CAUSE[pid] in causes(e)):
-                chk.violation(key, 'long-lived SP (%s-level signatures) accepts what a fresh one refuses: %s; at that moment the clock is %s '
+            if e['mustReject'] and s['verdict'] == 'accept' and (CAUSE[pid] is None or CAUSE[pid] in causes(e)):
+                chk.violation(key, 'long-lived receiver (%s-level signatures) accepts what a fresh one refuses: %s; at that moment the clock is %s '
                               'the window and metadata holds %s' % (case['level'], describe(case['hist'], k), e['clock'], e['mdKey']), detail)
             elif e['mustAccept'] and s['verdict'] != 'accept':
-                chk.violation(key, 'long-lived SP (%s-level signatures) refuses a conformant response seen for the first time (%s): %s'
+                chk.violation(key, 'long-lived receiver (%s-level signatures) refuses a conformant message seen for the first time (%s): %s'
                               % (case['level'], s.get('exc'), describe(case['hist'], k)), detail)
         chk.sample({'kind': 'history', 'level': case['level'], 'steps': describe(case['hist'], len(case['hist'])),
                     'verdicts': [s.get('verdict') for s in steps if s['op'] == 'deliver']}, limit=3)
